@@ -21,6 +21,13 @@ from sa.mutate import Mutant
 
 PROP = 'C15'
 
+META = dict(
+    technique='AST class-table analysis: dataclass-field vs _traversable agreement, static visitor/mapper dispatch, sibling-mapper child-coverage comparison',
+    level='Decides a structural necessary condition of completeness only: every Expression/Node-typed field of all 47 IR node classes is traversable, the walk mapper behind the Find* visitors recurses into every child its sibling mappers recurse into (36 expression classes), finder handlers visit o.children for every node class (8 finders x 47 classes), FindNodes is pre-order. Does NOT decide ordering/uniqueness behaviour.',
+    note='Trusts annotations as the statement of which fields hold expressions; exemption table for attached pragma/comment metadata and literal-only fields is in sa/rules/c15.py.',
+    ref='DESIGN.md section 3, C15',
+)
+
 # attached metadata, documented as not discoverable while attached (pragmas_attached docs,
 # Assignment/VariableDeclaration docstrings) and aggregate leaf by construction
 R1_EXEMPT = {
